@@ -565,6 +565,12 @@ fn make_env() -> Env {
 // ------------------------------------------------------------------------------------------------
 
 pub fn run(case: &str, ctx: &mut Ctx) -> String {
+    // `wire retry k=v …`: the end-to-end run of harness/src/e2e/retry.rs (a real Session against the mock cluster,
+    // frames counted at the nodes, UNPREPARED answers included), compared with the frame-level model
+    if let Some(rest) = case.strip_prefix("wire retry ") {
+        let words: Vec<&str> = rest.split(' ').collect();
+        return crate::e2e::retry::run(&words, ctx);
+    }
     let w: Vec<&str> = case.split_whitespace().collect();
     if w.len() != 4 {
         return "bad-case".to_owned();
@@ -575,6 +581,7 @@ pub fn run(case: &str, ctx: &mut Ctx) -> String {
         "run" => run_exec(Some(pol), idem, w[2], w[3], ctx),
         "runx" if pol == Pol::Fallthrough => run_exec(None, idem, w[2], w[3], ctx),
         "spec" => run_spec(pol, idem, w[2], w[3], ctx),
+        "tmo" => run_tmo(pol, idem, w[2], w[3], ctx),
         _ => "bad-case".to_owned(),
     }
 }
@@ -843,6 +850,134 @@ impl tracing::Subscriber for ArcSubscriber {
     fn exit(&self, id: &tracing::span::Id) {
         self.0.exit(id)
     }
+}
+
+/// `tmo <policy>/<i|n> <cl0>/<plan>/<timeout ms> <outcome>@<ms>;…` — one fiber under the client-side request
+/// timeout (`request_timeout: Some(..)`, execution.rs:486-502) on a paused clock; the k-th `run_request_once` call
+/// takes `<ms>` virtual milliseconds (attempts beyond the script: `ok@7`).
+fn run_tmo(pol: Pol, idem: bool, w2: &str, outs: &str, ctx: &mut Ctx) -> String {
+    let p: Vec<&str> = w2.split('/').collect();
+    if p.len() != 3 {
+        return "bad-case".to_owned();
+    }
+    let (Some(cl0), Ok(tmo)) = (parse_cl(p[0]), p[2].parse::<u64>()) else { return "bad-case".to_owned() };
+    if tmo > 1_000_000 {
+        return "bad-case".to_owned();
+    }
+    let mut plan: Vec<usize> = Vec::new();
+    if p[1] != "-" {
+        for ch in p[1].chars() {
+            match ch {
+                '1' => plan.push(usize::MAX),
+                '0' => plan.push(0),
+                '2'..='9' => plan.push(ch as usize - '1' as usize),
+                _ => return "bad-case".to_owned(),
+            }
+        }
+    }
+    let mut outcomes: Vec<(Option<RequestAttemptError>, u64)> = Vec::new();
+    for o in ops(outs) {
+        let Some((o, ms)) = o.split_once('@') else { return "bad-case".to_owned() };
+        let Ok(ms) = ms.parse::<u64>() else { return "bad-case".to_owned() };
+        if ms > 100_000 {
+            return "bad-case".to_owned();
+        }
+        if o == "ok" {
+            outcomes.push((None, ms));
+        } else {
+            let Some(e) = parse_err(o) else { return "bad-case".to_owned() };
+            if err_name(&e, true) != o.split('#').next().unwrap_or("") {
+                return "bad-case".to_owned();
+            }
+            outcomes.push((Some(e), ms));
+        }
+    }
+    let rec = Arc::new(Mutex::new(Recorded::default()));
+    let policy = RecordingPolicy { inner: pol.make(), rec: Arc::clone(&rec) };
+    // (target, consistency, virtual start time in ms)
+    let log: RefCell<Vec<(usize, Consistency, u64)>> = RefCell::new(Vec::new());
+    let calls = Cell::new(0usize);
+    let result = ENV.with(|env| {
+        let params = hooks::ExecParams {
+            is_idempotent: idem,
+            consistency: cl0,
+            serial_consistency: None,
+            retry_policy: &policy,
+            load_balancing_policy: &env.lbp,
+            speculative_policy: None,
+            request_timeout: Some(std::time::Duration::from_millis(tmo)),
+        };
+        env.rt.block_on(async {
+            tokio::time::pause();
+            let _resume = ResumeClock;
+            let t0 = tokio::time::Instant::now();
+            // Attempts end at ABSOLUTE virtual instants (t0 + sum of the durations so far): tokio's timer rounds every
+            // relative `sleep` up to its 1 ms tick, which would otherwise accumulate one extra millisecond per attempt.
+            let planned = Cell::new(0u64);
+            let run_once = |target: usize, cl: Consistency| {
+                let k = calls.get();
+                calls.set(k + 1);
+                let (res, ms): (Result<(), RequestAttemptError>, u64) = match outcomes.get(k) {
+                    Some((Some(e), ms)) => (Err(e.clone()), *ms),
+                    Some((None, ms)) => (Ok(()), *ms),
+                    None => (Ok(()), 7),
+                };
+                let start = planned.get();
+                planned.set(start + ms);
+                log.borrow_mut().push((target, cl, start));
+                let until = t0 + std::time::Duration::from_millis(start + ms);
+                async move {
+                    tokio::time::sleep_until(until).await;
+                    res
+                }
+            };
+            hooks::run_request_calls(params, &env.conn, plan.clone(), run_once).await
+        })
+    });
+    let attempts = log.into_inner();
+    let n = attempts.len();
+    let recd = rec.lock().unwrap();
+    let decisions: Vec<Dec> = recd.calls.iter().map(|c| c.3.clone()).collect();
+    // ---- oracle: the property's clauses hold for the cut-short history, and nothing is sent after the deadline
+    for (i, (_, _, at)) in attempts.iter().enumerate() {
+        if *at > tmo {
+            ctx.fail(format!("attempt {} was started at {} ms, after the request timeout of {} ms", i, at, tmo));
+        }
+    }
+    if !idem {
+        for k in 0..n.saturating_sub(1) {
+            match outcomes.get(k) {
+                Some((Some(e), _)) if proves_not_applied(e) => {}
+                _ => ctx.fail(format!("non-idempotent request re-sent (attempt {}) after attempt {} which does not prove non-application", k + 1, k)),
+            }
+        }
+    }
+    if n > plan.len() + pol.same_node_retries() {
+        ctx.fail(format!("{} attempts > plan length {} + {} same-node retries", n, plan.len(), pol.same_node_retries()));
+    }
+    if pol == Pol::Default && oracle_is_serial(cl0) && n > 1 {
+        ctx.fail(format!("default policy at {} consistency: {} attempts", cl_name(cl0), n));
+    }
+    if decisions.len() > n || n > decisions.len() + 1 {
+        ctx.fail(format!("{} attempts but {} decisions", n, decisions.len()));
+    }
+    let timed_out = matches!(result, Err(RequestError::RequestTimeout(_)));
+    let total: u64 = (0..n).map(|k| outcomes.get(k).map(|o| o.1).unwrap_or(7)).sum();
+    if timed_out && total <= tmo {
+        ctx.fail(format!("RequestTimeout({} ms) although all {} attempts together took {} ms", tmo, n, total));
+    }
+    let r = match &result {
+        Ok(hooks::ExecOutcome::Completed(t)) => format!("ok:{}", t),
+        Ok(hooks::ExecOutcome::IgnoredWriteError(t)) => format!("ignored:{}", t),
+        Err(RequestError::LastAttemptError(e)) => format!("err:last:{}", err_name(e, false)),
+        Err(RequestError::ConnectionPoolError(_)) => "err:pool".to_owned(),
+        Err(RequestError::EmptyPlan) => "err:emptyplan".to_owned(),
+        Err(RequestError::RequestTimeout(_)) => "err:timeout".to_owned(),
+        Err(_) => "err:unknown".to_owned(),
+    };
+    let a = list_or_dash(attempts.iter().map(|(t, c, _)| format!("{}:{}", t, cl_name(*c))).collect(), ",");
+    let d = list_or_dash(decisions.iter().map(|d| d.name()).collect(), ",");
+    format!("A={} D={} R={} S={}", a, d, r, recd.sessions)
 }
 
 /// `pol = None`: the scripted test policy (`runx`), each failing outcome is written `<err>~<decision>`.
@@ -1388,6 +1523,84 @@ pub fn generate(rng: &mut Rng, tier: Tier, emit: &mut dyn FnMut(String)) {
             .collect();
         let cl0 = if rng.chance(1, 10) { "serial" } else { *rng.pick(&["quorum", "eachquorum", "all", "one"]) };
         emit(format!("spec {}/{} {}/{}/{} {}", pol.name(), if idem { "i" } else { "n" }, cl0, ps, m, outs.join(";")));
+    }
+
+    // (e) the client-side request timeout: attempts of 7..377 virtual ms against deadlines around their sums
+    for _ in 0..(if quick { 8000 } else { 80000 }) {
+        let pol = *rng.pick(&[Pol::Default, Pol::Default, Pol::Downgrading, Pol::Downgrading, Pol::Fallthrough]);
+        let idem = rng.chance(2, 5);
+        let plan_len = rng.range(0, 4) as usize;
+        let plan: Vec<bool> = (0..plan_len).map(|_| !rng.chance(1, 6)).collect();
+        let ps = plan_str(&plan);
+        let ps = if rng.chance(1, 4) { flaky(rng, ps) } else { ps };
+        let len = plan_len + 3;
+        let mut sum = 0u64;
+        let mut sums = vec![0u64];
+        let outs: Vec<String> = (0..len)
+            .map(|i| {
+                let ms = *rng.pick(&[0u64, 1, 7, 40, 40, 100, 137, 377]);
+                sum += ms;
+                sums.push(sum);
+                let o = if i + 1 == len || rng.chance(1, 10) {
+                    "ok".to_string()
+                } else if idem {
+                    rng.pick(&["broken", "db.overloaded", "db.bootstrapping", "alloc", "db.unavailable.2.3", "db.readtimeout.2.2.0",
+                        "db.writetimeout.0.1.batchlog", "db.readtimeout.1.2.0", "db.syntax"]).to_string()
+                } else {
+                    rng.pick(&["db.bootstrapping", "alloc", "db.unavailable.2.3", "db.readtimeout.2.2.0", "db.readtimeout.1.2.0",
+                        "broken", "db.writetimeout.0.1.batchlog"]).to_string()
+                };
+                format!("{}@{}", o, ms)
+            })
+            .collect();
+        // deadlines: exactly at, just before, just after the end of some attempt; 0; far beyond
+        let base = *rng.pick(&sums);
+        let tmo = match rng.below(6) {
+            0 => base,
+            1 => base.saturating_sub(1),
+            2 => base + 1,
+            3 => 0,
+            4 => sum + 1000,
+            _ => rng.below(sum + 50),
+        };
+        let cl0 = if rng.chance(1, 10) { *rng.pick(&["serial", "localserial"]) } else { *rng.pick(&["quorum", "eachquorum", "all", "one"]) };
+        emit(format!("tmo {}/{} {}/{}/{} {}", pol.name(), if idem { "i" } else { "n" }, cl0, ps, tmo, outs.join(";")));
+    }
+    // (f) frame level, end to end (harness/src/e2e/retry.rs with UNPREPARED answers): a real Session against the mock
+    //     cluster; the k-th statement frame of a request is answered with the k-th outcome of its script
+    for i in 0..(if quick { 60 } else { 600 }) {
+        let n = 1 + rng.below(3);
+        let pol = *rng.pick(&["def", "def", "down", "fall"]);
+        let idem = if i % 3 == 2 { 1 } else { 0 };
+        let kind = *rng.pick(&["exec", "exec", "batch", "batch", "query"]);
+        let via = if i % 4 == 1 { "caching" } else { "session" };
+        let cl = if pol == "def" && rng.chance(1, 8) { *rng.pick(&["serial", "localserial"]) } else { "q" };
+        let n_req = 3 + rng.below(3);
+        let mut scripts = Vec::new();
+        for _ in 0..n_req {
+            let len = 1 + rng.below(n + 4);
+            let mut sv: Vec<&str> = Vec::new();
+            for k in 0..len {
+                let o = if k + 1 == len && rng.bool() {
+                    "ok"
+                } else if rng.chance(2, 5) {
+                    "unp"
+                } else if rng.chance(1, 2) {
+                    *rng.pick(&["un", "bs", "rt", "rtd"])
+                } else {
+                    *rng.pick(&["ov", "se", "tr", "wt", "wtb", "inv", "cl", "un", "bs"])
+                };
+                sv.push(o);
+                if o == "ok" {
+                    break;
+                }
+            }
+            scripts.push(sv.join("."));
+        }
+        emit(format!(
+            "wire retry n={} sh=0 pol={} idem={} kind={} cl={} via={} seed={} scripts={}",
+            n, pol, idem, kind, cl, via, rng.below(1 << 32), scripts.join("/")
+        ));
     }
 
     // (c) the loop under a scripted test policy: every decision arm with every consistency (the built-in policies
